@@ -34,9 +34,11 @@ const (
 	layCR         layoutKind = "one-graphql-bare-cr-line-endings"
 	layMixedEnds  layoutKind = "one-graphql-mixed-line-endings"
 	layGoOneLit   layoutKind = "go-all-definitions-in-one-literal"
+	layGoConcat   layoutKind = "go-literal-as-operand-of-plus"
+	layGoRawBlank layoutKind = "go-raw-literals-blank-indented-line-before-marker"
 )
 
-var allLayouts = []layoutKind{layOneFile, layPerDef, layPartition, layGoRaw, layGoRawNL, layGoInterp, layGoNested, layGoSameLine, laySameBase, layOutside, layCRLF, layCR, layMixedEnds, layGoOneLit}
+var allLayouts = []layoutKind{layOneFile, layPerDef, layPartition, layGoRaw, layGoRawNL, layGoInterp, layGoNested, layGoSameLine, laySameBase, layOutside, layCRLF, layCR, layMixedEnds, layGoOneLit, layGoConcat, layGoRawBlank}
 
 type placed struct {
 	File      string // relative file name
@@ -166,6 +168,21 @@ func layout(defs []gen.Def, kind layoutKind, r *proto.Rng) (map[string]string, [
 				fmt.Fprintf(&sb, "var _ = `# @genqlient\n\n%s`\n\n", b)
 				where[i] = placed{"queries.go", line + 2}
 				line += 2 + nlines(b) + 2
+			case layGoConcat:
+				// every other definition's (complete, marked) literal is the right operand of a `+` whose left operand is
+				// an ordinary string: still a string literal of the file, so still an operation
+				if i%2 == 0 {
+					fmt.Fprintf(&sb, "var _ = \"sending: \" + `# @genqlient\n\n%s`\n\n", b)
+				} else {
+					fmt.Fprintf(&sb, "var _ = `# @genqlient\n\n%s`\n\n", b)
+				}
+				where[i] = placed{"queries.go", line + 2}
+				line += 2 + nlines(b) + 2
+			case layGoRawBlank:
+				// a whitespace-only (indented) line between the opening quote and the marker
+				fmt.Fprintf(&sb, "var _ = `\n\t\t\n\t\t# @genqlient\n\n%s`\n\n", b)
+				where[i] = placed{"queries.go", line + 4}
+				line += 4 + nlines(b) + 2
 			case layGoRawNL:
 				fmt.Fprintf(&sb, "var _ = `\n\t# @genqlient\n\n%s`\n\n", b)
 				where[i] = placed{"queries.go", line + 3}
